@@ -31,6 +31,7 @@ def rules(ctx):
     c015(ctx)
     c016(ctx)
     c017(ctx)
+    c017_closed(ctx)
     c018(ctx)
     # a key (or tombstone) missing from an SST's bloom filter makes Sst::load miss it and the search fall through to
     # an older version: the builder-side accumulation rule of C10.2 is a necessary condition of point reads too
@@ -179,6 +180,57 @@ def c017(ctx):
                   "expand_compaction adds a file without checking that its key range lies inside the compaction's range (first: %s, last: %s) and without "
                   "recomputing the bounds: a file that overlaps the range and sticks out is compacted past older files of the levels in between -- a point "
                   "read then finds the older version first" % (lo, hi), pt=p_)
+
+
+def c017_closed(ctx):
+    R = "C01.7"
+    # the bounds are computed level by level on the way down, so the range can still grow after a level in between has been looked at;
+    # expansion only adds files that lie wholly inside the final range.  A file of a level in between that merely overlaps it stays where
+    # it is -- above the newer versions the compaction carries down.  A candidate is therefore offered only behind a closure test: a
+    # predicate that walks the levels strictly between lower and upper and answers false for an overlapping file that is not an input.
+    f = ctx.fn(R, "lsmtk::tree::Version::find_best_compaction")
+    if not f:
+        return
+    cand = []
+    for b in f.blocks:
+        for i, st in enumerate(b.st):
+            if st["s"] == "=" and st["rv"]["r"] == "agg" and st["rv"].get("variant") == "Some" and "Compaction" in f.locals[st["lhs"]["l"]] and not st["lhs"]["p"]:
+                if any(x["k"] == "agg" and (x.get("adt") or "").endswith("tree::Compaction") for x in P.origins(f, st["rv"]["ops"][0])):
+                    cand.append((b.idx, i))
+    ctx.floor(R, "find_best_compaction: candidates offered", len(cand), 1)
+
+    def is_closure_test(g):
+        if g.locals[0] != "bool":
+            return False
+        contains = any(re.search(r"::contains$", callee_skey(t) or "") and "inputs" in {x["f"] for a in t["args"][:1] for x in P.origins(g, a) if x["k"] == "field"}
+                       for _b, t in g.calls())
+        cmps = 0
+        for _b, t in g.calls():
+            if re.search(r"::(le|ge|lt|gt)$", callee_skey(t) or "") and len(t["args"]) == 2:
+                fs = [{x["f"] for x in P.origins(g, a) if x["k"] == "field"} for a in t["args"]]
+                owners = [{x["owner"].rsplit("::", 1)[-1] for x in P.origins(g, a) if x["k"] == "field" and x["f"] in ("first_key", "last_key")} for a in t["args"]]
+                if all(fs_ & {"first_key", "last_key"} for fs_ in fs) and {"SstMetadata"} <= (owners[0] | owners[1]) and {"CompactionCore"} <= (owners[0] | owners[1]):
+                    cmps += 1
+        levels = any(x["k"] == "field" and x["f"] == "levels" for _b, t in g.calls() for a in t["args"] for x in P.origins(g, a))
+        false_exit = any(st["s"] == "=" and st["lhs"]["l"] == 0 and st["rv"]["r"] == "use" and st["rv"]["a"].get("k") == "const" and st["rv"]["a"]["c"].get("v") == 0
+                         for b in g.blocks for st in b.st)
+        return contains and cmps >= 2 and levels and false_exit
+    for p_ in cand:
+        ok = False
+        for bb, lab, srcs in K.guards(f, p_):
+            if lab == "sw:0":
+                continue
+            for s_ in srcs:
+                if s_["k"] == "call":
+                    for k_ in ctx.prog.targets(s_["t"]):
+                        g = ctx.prog.fns.get(k_)
+                        if g is not None and g.crate == "lsmtk" and is_closure_test(g):
+                            ok = True
+        ctx.check(R, f, "intermediate-levels-covered", ok,
+                  "a candidate is offered only if every file of the levels in between that overlaps its key range is one of its inputs",
+                  "find_best_compaction offers a compaction without checking the levels strictly between lower and upper for files that overlap its "
+                  "final key range and are not inputs (the bounds are computed top-down in one pass and expansion adds only contained files): such a "
+                  "file holds older versions than the data the compaction carries past it, and a point read then returns k-OLD", pt=p_)
 
 
 def false_edges_of(f, callee_pat, arg_pred=None):
